@@ -5,8 +5,7 @@ SPEC = {
     'claimed': False,
     'theorems': [
         'C02_hash_denotes_tree', 'C02_set_refines_pure',
-        'C02_root_deterministic_refuted', 'C02_root_deterministic_partial', 'C02_root_cfg_independent',
-        'C02_noprune_plain',
+        'C02_root_deterministic', 'C02_root_deterministic_state', 'C02_root_cfg_independent',
         'C02_store_sound_invariant', 'C02_cache_sound_invariant', 'C02_history_sound',
         'C02_memset_commit_eq_set', 'C02_memset_empty',
         'C02_update_total_refuted', 'C02_update_total_partial', 'C02_update_total_nomem',
@@ -25,9 +24,8 @@ SPEC = {
             'committed roots. Streams: guarded-small/large (no pending-only updates: no failure is tolerated in any '
             'run), mixed-small/large, rewrite (a pending rewrite of present values at another height, rolled back or '
             'left pending, then more work on the same parent - the shape of known finding 1), alias (trees of height '
-            '> 2, 1-2 block heights, 40 % updates without writes on arbitrary committed roots - known findings 2, 3). '
-            'The case also carries the byte order of the observed root hashes (the model needs it to say which root '
-            'an aliased cache entry reports). Observables per '
+            '> 2, 1-2 block heights, 40 % updates without writes on arbitrary committed roots - known finding 2 and the '
+            'repaired finding 3: root objects cached by the prune bookkeeping). Observables per '
             'operation and run: result class (ok / ErrNodeNotExist / ErrHashNotFound / panic / other), equality class '
             'of the returned root over ALL runs of the case, node structure (keys, heights, sizes) of probed versions. '
             'A history is only used if the legality of its Commit/Rollback operations does not depend on whether '
@@ -42,10 +40,10 @@ SPEC = {
         'lazy loading is modelled by materialising the version first and replaying the loads/orphanings the Go '
         'algorithm performs (Model.v header); exactness of that replay is checked by the correspondence on error '
         'behaviour (panics are predicted per run and operation) and by the probes',
-        'LevelDB / memdb and the ARC implementation are oracles (finite maps, no eviction at the sizes used); the one '
-        'LevelDB behaviour that is modelled is that an iterator reuses its key buffer (what DelLeafCountKV\'s cached '
-        'root objects alias): [s_alias], with the byte order of root hashes as an explicit oracle [ord] taken from '
-        'the observed roots',
+        'LevelDB / memdb and the ARC implementation are oracles (finite maps, no eviction at the sizes used). That '
+        'LevelDB iterators reuse their key buffer is no longer visible: since chain33 7d7bddb DelLeafCountKV copies '
+        'the root hash before Load, so a cached node object is described by its record alone (prune runs still use '
+        'LevelDB, and the alias stream re-creates the histories of the former finding 3)',
         'hooks: /repo/system/store/mavl/db/dump_verif.go (read-only pre-order dump, from C01) and '
         '/repo/system/store/mavl/db/memreset_verif.go (empties memTree/tkCloseCache between runs without '
         're-allocating the 500000-entry map)',
@@ -67,13 +65,13 @@ SPEC = {
         'heights/sizes are int32 in Go and Z in the model',
     ],
     'manifest': {
-        'level_text': 'partial: the full statement (every update after every history returns C01\'s pure root) is refuted in '
-                      'the model and on the Go code under prune (known finding 3: wrong root from Set with no writes) and its '
-                      'totality part under prefix+memTree (known findings 1, 2: panics). Proved for all configurations, heights, '
-                      'byte orders and sound states: outside the aliased-empty-Set case a successful update returns the pure '
-                      'root (configuration-, cache- and history-independent, Set = MemSet+Commit); without prune that guard '
-                      'holds along every history; soundness of database, caches and pending trees is invariant; an update '
-                      'succeeds whenever the version below its parent resolves completely, which holds along every '
+        'level_text': 'partial: the root part of the statement is proved at full strength - after every history, under every '
+                      'configuration (prune included, known finding 3 is repaired in chain33 7d7bddb), block height, cache '
+                      'and pending-tree state, a successful update returns C01\'s pure root (C02_root_deterministic; also for '
+                      'every sound state, Set = MemSet+Commit, configuration-independent); soundness of database, caches and '
+                      'pending trees is invariant. The totality part (every update of a committed root succeeds) is refuted '
+                      'in the model and on the Go code under prefix+memTree (known findings 1, 2: panics, still open): an '
+                      'update succeeds whenever the version below its parent resolves completely, which holds along every '
                       'well-formed history when memTree and prune are off',
         'level_note': 'symbolic injective SHA-256 and farm hash; LevelDB/ARC as oracles; lazy loading modelled by '
                       'materialise-and-replay, validated by per-run prediction of panics; two add-only hook files',
